@@ -64,6 +64,7 @@ class Ctx:
             ns = sorted(set([0, 1, L // 2, L // 2 + 1, L, 2 * L + 3]))
         self.ks, self.ns = ks, ns
         self.css = sorted(set([1, S, L + 1]))
+        self.buf = np.zeros(2 * L + 3)  # one persistent, writable buffer object
         self.f32 = bool(c.get("f32", False))
         # dtype of streamed chunks (whole utterances via full32 are separate operations)
         self.xs = self.x32 if c.get("stream_dtype") == "float32" else self.x
@@ -93,6 +94,13 @@ def _ops(ctx, s):
     for n in ctx.ns[-2:]:
         for cs in ctx.css:
             yield ["fbf", n, cs]
+    # the SAME array object handed in again after being refilled in place (a pre-allocated buffer)
+    yield ["fullbuf", 0]
+    yield ["fullbuf", 1]
+    # a non-native (big-endian) float array, as np.frombuffer gives for big-endian files
+    yield ["fullbe", ctx.ns[-1]]
+    # a call that is refused for its input (integer samples): must leave no trace
+    yield ["fullint", ctx.ns[-2]]
 
 
 def _step(ctx, s, op):
@@ -111,6 +119,43 @@ def _step(ctx, s, op):
         a = computers.call(comp.finalize)
         b = computers.call(shadow.finalize)
         pos2, started2 = 0, False
+    elif name in ("fullbuf", "fullbe", "fullint"):
+        if s.started:
+            return St(comp, shadow, s.pos, True), [], (name, "skipped_mid_utterance")
+        fresh = computers.clone(ctx.comp0)
+        if name == "fullbuf":
+            v = op[1]
+            data = np.array(ctx.x[5 * v: 5 * v + len(ctx.buf)], copy=True)
+            ctx.buf[:] = data
+            arg, ref_arg = ctx.buf, data.copy()
+        elif name == "fullbe":
+            data = np.array(ctx.x[:op[1]], copy=True)
+            arg, ref_arg = data.astype(">f8"), data
+        else:
+            arg = np.arange(op[1], dtype=np.int16)
+            ref_arg = arg.copy()
+            data = arg.copy()
+        before = arg.tobytes()
+        a = computers.call(comp.compute_full, arg)
+        b = computers.call(fresh.compute_full, ref_arg)
+        if name == "fullint" and a[0] == "exc" and b[0] == "exc" and a[1] == b[1] == "ValueError":
+            # refused for its input by a fresh instance as well: nothing may have changed
+            if computers.canon(comp) != computers.canon(s.comp):
+                viol.append(core.violation(ctx.tags(what="disturbed", op=name),
+                                           "a call refused for its (integer) input changed the computer"))
+            return St(comp, shadow, s.pos, s.started), viol, (name, "refused")
+        if arg.tobytes() != before:
+            viol.append(core.violation(ctx.tags(what="input_modified", op=name),
+                                       "%s modified the array it was given" % (op,)))
+        ok = a[0] == b[0] and (a[0] == "exc" or (
+            a[1].shape == b[1].shape and np.array_equal(np.asarray(a[1], dtype=np.float64),
+                                                        np.asarray(b[1], dtype=np.float64))))
+        if not ok:
+            viol.append(core.violation(
+                ctx.tags(what="differs_from_fresh", op=name),
+                "%s: got %s, a fresh instance given the same samples returns %s" % (op, _desc(a), _desc(b))))
+        computers.poison(comp) if a[0] == "ok" else None
+        return (St(comp, computers.clone(ctx.comp0), 0, False) if a[0] == "ok" else None), viol, (name, a[0])
     else:
         n = op[1]
         x = ctx.x32 if name == "full32" else ctx.x
@@ -244,9 +289,78 @@ def configs(tier):
     return out
 
 
+def held_utterances(pt, seed):
+    """ONE live computer (no snapshots), three utterances in a row, each either via compute_full or
+    via chunks + finalize; every array ever returned is HELD; at the end each must still be
+    bit-identical to the copy taken when it was returned and no two of them may share memory
+    (an output array re-used for a later utterance overwrites features the caller still holds)."""
+    c, plan = pt
+    ctx = Ctx(c, seed)
+    comp = cfg.make_computer(c)
+    held = []
+    viol = []
+    case = dict(config=c, plan=plan)
+    for ui, (mode, n) in enumerate(plan):
+        x = sig.signal(seed, n, offset=ui + 1)
+        if mode == "full":
+            r = computers.call(comp.compute_full, sig.ro(x))
+            outs = [r]
+        else:
+            outs = []
+            pos = 0
+            for k in (n // 2, n - n // 2):
+                outs.append(computers.call(comp.compute_chunk, sig.ro(x[pos:pos + k])))
+                pos += k
+            outs.append(computers.call(comp.finalize))
+        for r in outs:
+            if r[0] != "ok":
+                viol.append(core.violation(ctx.tags(what="exception", op="held", exc=r[1]),
+                                           "plan %r utterance %d raised %s: %s" % (plan, ui, r[1], r[2]), case))
+                return core.result(viol)
+            held.append((r[1], r[1].copy(), ui))
+    for i, (arr, cp, ui) in enumerate(held):
+        if arr.tobytes() != cp.tobytes():
+            viol.append(core.violation(
+                ctx.tags(what="held_result_changed", op="held"),
+                "plan %r: features of utterance %d returned earlier were overwritten by a later utterance"
+                % (plan, ui), case))
+            break
+        for j in range(i + 1, len(held)):
+            if arr.size and held[j][0].size and np.shares_memory(arr, held[j][0]):
+                viol.append(core.violation(ctx.tags(what="results_share_memory", op="held"),
+                                           "plan %r: two returned arrays share memory" % (plan,), case))
+                break
+        if viol:
+            break
+    return core.result(viol, obs=[c["kind"], len(viol) == 0], sample=case)
+
+
+def _held_points(tier):
+    import itertools
+
+    pts = []
+    cfgs = [dict(kind="stft", bank="tri", L=5, S=2, style="causal", kaldi=False, window="hamming", pad=True,
+                 energy=True),
+            dict(kind="stft", bank="tri", L=6, S=3, style="centered", kaldi=True, window="hamming", pad=True,
+                 energy=True),
+            dict(kind="si", bank="gabor", S=2, style="centered", pad=True, window="hamming", energy=True),
+            dict(kind="si", bank="gammatone", S=3, style="causal", pad=True, window="hamming", energy=True)]
+    for c in cfgs:
+        L = c.get("L", 14)
+        utts = [("full", L), ("full", 2 * L + 3), ("chunks", L + 1), ("chunks", 2 * L + 3), ("full", 1)]
+        for plan in itertools.product(utts, repeat=3 if tier == "quick" else 4):
+            pts.append((c, [list(u) for u in plan]))
+    return pts
+
+
 def subchecks(tier, seed):
     cs = configs(tier)
     return [core.SubCheck(
+        "held_utterances", _held_points(tier), lambda p: held_utterances(p, seed),
+        "one live computer, every sequence of 3 (thorough 4) utterances over {compute_full | chunks+finalize} "
+        "x lengths; all returned arrays held to the end: unchanged and pairwise disjoint in memory",
+        replay=lambda case: held_utterances((case["config"], case["plan"]), seed), kind="explore"),
+        core.SubCheck(
         "history_bfs", cs, lambda c: explore_config(c, seed),
         "BFS to fixpoint over histories of chunk/finalize/full/fbf on one real instance; every "
         "observation compared bit-for-bit with a fresh instance fed only the current utterance",
